@@ -488,6 +488,9 @@ fn check_constraint_selector(ctx: &mut Ctx, f: &FnInfo, consts: &dyn Fn(&str) ->
                 }
                 _ => err,
             })),
+            "per_visible_range_constraints" if matches!(_args.get(1), Some(Val::List(l)) if l.is_empty()) => {
+                Some(Ok(Val::Ctor("Ok".into(), vec![Val::Ctor("PVRC".into(), vec![], [("min".to_string(), Val::none()), ("max".to_string(), Val::none()), ("extensible".to_string(), Val::Bool(false))].into_iter().collect())], BTreeMap::new())))
+            }
             "per_visible_range_constraints" => Some(Ok(match &*cur.borrow() {
                 Shape::Set(lo, hi, ext) => {
                     let o = |b: &Option<i128>| b.map(|i| Val::some(Val::input(i))).unwrap_or(Val::none());
@@ -842,6 +845,10 @@ pub fn agree(m: &Model, ctx: &mut Ctx, rule: &str) {
                 Some(Ok(if *as_set.borrow() { err() } else { Val::Ctor("Ok".into(), vec![Val::Tuple(vec![mk(lo), mk(hi), Val::Bool(ext)])], BTreeMap::new()) }))
             }
             ".unpack_as_strict_value" => Some(Ok(err())),
+            // asked about no constraint at all, the function has no bound to report
+            "per_visible_range_constraints" if matches!(a.get(1), Some(Val::List(l)) if l.is_empty()) => {
+                Some(Ok(Val::Ctor("Ok".into(), vec![Val::Ctor("PVRC".into(), vec![], [("min".to_string(), Val::none()), ("max".to_string(), Val::none()), ("extensible".to_string(), Val::Bool(false))].into_iter().collect())], BTreeMap::new())))
+            }
             "per_visible_range_constraints" => {
                 let (lo, hi, ext) = *cur.borrow();
                 let o = |b: Option<i128>| b.map(|i| Val::some(Val::input(i))).unwrap_or(Val::none());
